@@ -31,6 +31,17 @@ End Ring.
 Print Assumptions C10_cols.
 Print Assumptions C10_rhs.
 
+(* stochastic half: every recorded state of every path (exact or tau-leap, any schedule) of a model whose
+   state-change columns sum to zero keeps the initial total exactly *)
+From Coq Require Import QArith Qcanon.
+From PV Require Import Stoch StochProofs StochTie Gen.StochGen.
+Theorem C10_path : forall c T nS s x t, cols_closed c nS -> length x = nS -> Forall sstep_ok s ->
+  all_total (vsum x)
+    (fst (loop gen_failed_one reject_keeps accept_adds_dt update_plus clock_guard_positive argmin_first c T x t s)).
+Proof. intros c T nS s x t Hc Hl Hs. eapply chain_total; eauto.
+  apply (loop_walk gen_failed_one gen_failed_one_spec c T s x t Hs). Qed.
+Print Assumptions C10_path.
+
 (* non-vacuity: the SIR model (S->I, I->R) over Z is closed with 3 states *)
 From Coq Require Import ZArith.
 Example sir_closed :
